@@ -470,8 +470,9 @@ def _run_impl(line, extra=None):
     if op == "a2l":
         return enc_lmap(GZ.accessor_to_latter_map(s_acc(t[1])))
     if op == "l2a":
-        th = None if t[3] == "-" else int(t[3])
-        return render(*guarded(lambda: GZ.latter_map_to_accessor(s_lmap(t[1]), int(t[2]), threshold=th)), show_acc)
+        if t[3] == "-":        # no threshold: the argument is LEFT OUT, so that the function's own default is what runs
+            return render(*guarded(lambda: GZ.latter_map_to_accessor(s_lmap(t[1]), int(t[2]))), show_acc)
+        return render(*guarded(lambda: GZ.latter_map_to_accessor(s_lmap(t[1]), int(t[2]), threshold=int(t[3]))), show_acc)
     if op == "rmu":
         return render(*guarded(lambda: GZ.remove_useless(s_lmap(t[1]), int(t[2]))), enc_lmap)
     if op == "verts":
